@@ -85,6 +85,25 @@ def calcSlot (c : Calc) (t base i : Int) : Option Int :=
   | .month => some (Int.tdiv (Int.tmod (t - base) oneDay) i)
   | .year => some (Int.tdiv (t - base) i)
 
+/-- the slot rule of the month calculator: current code takes the offset `% OneDay`
+(`modDay`); `fixes/C13-month-slot-quotient.patch` uses the plain quotient like the year calculator -/
+inductive SlotVariant where
+  | modDay | quotient
+  deriving DecidableEq, Repr
+
+/-- variant selected by the source text of `month.CalcSlot`'s return expression (regenerated fact
+`Generated.C13.monthCalcSlotExpr`); `none` = unknown code -/
+def slotVariantOf : String → Option SlotVariant
+  | "int(((timestamp - baseTime) % timeutil.OneDay) / interval)" => some .modDay
+  | "int((timestamp - baseTime) / interval)" => some .quotient
+  | _ => none
+
+/-- `CalcSlot` in the given variant of the month calculator (day and year calculators unchanged) -/
+def calcSlotV (v : SlotVariant) (c : Calc) (t base i : Int) : Option Int :=
+  match v, c with
+  | .quotient, .month => if i = 0 then none else some (Int.tdiv (t - base) i)
+  | _, _ => calcSlot c t base i
+
 /-- `CalcTimestamp(startTime, slot, interval)` -/
 def calcTimestamp (start slot i : Int) : Int := i * slot + start
 
@@ -176,6 +195,16 @@ def calcSlotRange (i familyTime : Int) (q : TimeRange) : Option (Int × Int) :=
   let storage : TimeRange := { start := familyTime, stop := calcFamilyEndTime c familyTime }
   let rs := q.intersect storage
   match calcSlot c rs.start familyTime i, calcSlot c rs.stop familyTime i with
+  | some a, some b => some (a % 65536, b % 65536)
+  | _, _ => none
+
+/-- `Interval.CalcSlotRange` with the month calculator's slot rule in variant `v`
+(`calcSlotRangeV .modDay = calcSlotRange`) -/
+def calcSlotRangeV (v : SlotVariant) (i familyTime : Int) (q : TimeRange) : Option (Int × Int) :=
+  let c := intervalType i
+  let storage : TimeRange := { start := familyTime, stop := calcFamilyEndTime c familyTime }
+  let rs := q.intersect storage
+  match calcSlotV v c rs.start familyTime i, calcSlotV v c rs.stop familyTime i with
   | some a, some b => some (a % 65536, b % 65536)
   | _, _ => none
 
